@@ -21,6 +21,7 @@ func probeKnown() {
 	if vt.Known(KnownStaleCut) && probeStaleCut() {
 		vt.KnownFinding(KnownStaleCut, "SeekAsync(cutPrefix=true) drops a lower-store key equal to the cut form of the last pending key (prefix 70: pending 7070, persisted 70, backwards => only [70])")
 	}
+	probeTornScan()
 	if vt.Known(KnownLevelDBReuse) && probeLevelDBReuse() {
 		vt.KnownFinding(KnownLevelDBReuse, "LevelDBStore.PutChangeSet returned nil but the batch is invisible to Get (goleveldb file-number reuse with stale block cache)")
 	}
